@@ -23,9 +23,15 @@ for p in sorted(glob.glob(os.path.join(V, "mutations", "C*.diff"))):
             print(name, "DOES NOT APPLY")
             continue
     t0 = time.time()
-    r = subprocess.run([os.path.join(V, "vcheck"), cid, "quick", "--solo", "--mutant", p], cwd=V, capture_output=True, text=True)
+    # optional sidecar <name>.opts.json: {"tier": "thorough", "env": {...}} for changes that need the deeper bound
+    opts = {}
+    if os.path.exists(p[:-5] + ".opts.json"):
+        opts = json.load(open(p[:-5] + ".opts.json"))
+    r = subprocess.run([os.path.join(V, "vcheck"), cid, opts.get("tier", "quick"), "--solo", "--mutant", p], cwd=V, capture_output=True, text=True, env=dict(os.environ, **opts.get("env", {})))
     classes = [re.sub(r"^\s*class: ", "", l).split(" (")[0] for l in r.stdout.splitlines() if l.strip().startswith("class:")]
     res[name] = {"applies": True, "exit": r.returncode, "detected": r.returncode == 1, "classes": classes[:8], "wall_s": round(time.time() - t0, 1)}
+    if opts:
+        res[name]["opts"] = opts
     if r.returncode == 2:
         res[name]["tool_error"] = r.stdout[-400:]
     print(name, "detected" if r.returncode == 1 else "NOT DETECTED rc=%d" % r.returncode, classes[:2], flush=True)
